@@ -128,9 +128,14 @@ def r_value(v):
     raise ValueError("no literal syntax for " + k)
 
 
+LONG_OCC = False      # render ? * + as 0*1 0* 1* (C09 occurrence-spelling identity)
+
+
 def r_occ(lo, hi):
     if (lo, hi) == (1, 1):
         return ""
+    if LONG_OCC:
+        return "%s*%s " % (lo, hi if hi != -1 else "")
     if (lo, hi) == (0, 1):
         return "? "
     if (lo, hi) == (0, -1):
